@@ -289,6 +289,10 @@ def gen_ufuncs(tier, rng):
                         base = 'shape=%s axis=%s keepdims=%d init=%s data=%s' % (fmt(s), 'None' if axes is None else fmt(axes), keep, init, fmt(data))
                         tags = ['ufunc-reduce', 'op=' + op, srank, 'keepdims=%d' % keep, 'init=' + ('absent' if init is None else 'present')]
                         yield Case('reduce op=%s %s' % (op, base), 'h_c08n', oracle=ans(oshape, ores), nontrivial=nt, tags=tags)
+                        if op in ('add', 'mul') and not keep:
+                            for api in ['view4'] + (['view2'] if init is None and op == 'add' else []):
+                                yield Case('reduce op=%s api=%s %s' % (op, api, base), 'h_c08r', oracle=ans(oshape, ores), nontrivial=nt,
+                                           tags=['named-' + ('sum' if op == 'add' else 'prod'), 'api=' + api, srank])
                         if op in ('add', 'mul', 'max', 'min'):
                             for api in ('view', 'array'):
                                 axk = 'int' if (axes is not None and len(axes) == 1 and rng.random() < 0.5) else 'vec'
